@@ -88,6 +88,9 @@ inductive Damage where
   | twoPackages
   -- generate phase
   | typeMissing | wrongKind | notInFile | restResults | restAliasDup | restParseFail | exportedGetFlag | manualBadParam | manualTwice | formatFail
+  -- write phase: the first output cannot be put in place without any fault injection (its name is taken by a directory,
+  -- or the temp name is too long): an I/O error in the first notedownSrc
+  | outputBlocked
   deriving DecidableEq, Repr
 
 /-- `outs`: the files the command line would write if the damage is not fatal for this sub-command;
@@ -103,5 +106,6 @@ def classify (cmd : Cmd) (d : Damage) (outs : List String) (stale : List String)
     | .new | .map | .rest => { gen := .fatal }
     | .enum => { outputs := outs }     -- enum skips the name with a warning and generates the others
   | .notInFile | .restResults | .restAliasDup | .restParseFail | .exportedGetFlag | .manualBadParam | .manualTwice | .formatFail => { gen := .fatal }
+  | .outputBlocked => { outputs := outs, removes := stale, writeErr := some 0 }
 
 end ShootVerif.Phases
